@@ -56,6 +56,12 @@ pub enum CBase {
     DropFirst,
     /// hold everything until the stream is pending, then drop everything, then poll.
     HoldThenDropAll,
+    /// poll whenever allowed; when pending, drop the lowest held FnRef that is NOT in
+    /// `CCfg::avoid` (a maximum antichain); when only members of it are held, drop all of them
+    /// (ascending) before polling again: the largest batch of drops the graph allows.
+    Avoid,
+    /// as Avoid, but the final batch is dropped in descending order.
+    AvoidRev,
 }
 
 #[derive(Clone, Debug, PartialEq, Eq, Hash, Serialize, Deserialize)]
@@ -74,6 +80,8 @@ pub struct CCfg {
     pub budget_polls: u8,
     #[serde(default)]
     pub opts_order: u8,
+    #[serde(default)]
+    pub avoid: Vec<bool>,
 }
 
 impl CCfg {
@@ -91,6 +99,7 @@ impl CCfg {
             budgets: vec![],
             budget_polls: 0,
             opts_order: 0,
+            avoid: vec![],
         }
     }
 
@@ -296,11 +305,17 @@ impl<'g> CDriver<'g> {
             self.acts.push(Act::Poll);
         }
         let mut first_drop = None;
+        let mut last_drop = None;
+        let mut first_outside = None;
         for i in 0..n {
             if self.held[i].is_some() {
                 if first_drop.is_none() {
                     first_drop = Some(self.acts.len());
                 }
+                if first_outside.is_none() && !cfg.avoid.get(i).copied().unwrap_or(false) {
+                    first_outside = Some(self.acts.len());
+                }
+                last_drop = Some(self.acts.len());
                 self.acts.push(Act::Drop(i));
             }
         }
@@ -353,6 +368,22 @@ impl<'g> CDriver<'g> {
                     first_drop.unwrap_or(0)
                 } else {
                     0
+                }
+            }
+            CBase::Avoid | CBase::AvoidRev => {
+                if first_drop.is_none() {
+                    self.draining = false;
+                }
+                if self.draining {
+                    if cfg.base == CBase::Avoid { first_drop.unwrap_or(0) } else { last_drop.unwrap_or(0) }
+                } else if poll_ok {
+                    0
+                } else if let Some(o) = first_outside {
+                    o
+                } else {
+                    // only members of the antichain are held: drop them all
+                    self.draining = true;
+                    if cfg.base == CBase::Avoid { first_drop.unwrap_or(0) } else { last_drop.unwrap_or(0) }
                 }
             }
         };
